@@ -87,6 +87,10 @@ def cases(draw):
             "settle_ms": draw(st.sampled_from([0, 300, 300])),
             # a removed agent may be slow to shut down: its un-publications then reach the directory after the repair
             "slow_stop_ms": draw(st.sampled_from([0, 0, 400])),
+            # latency on the link towards one agent: the management messages other agents send it (repair set-up,
+            # run, pause ...) arrive this many ms late, in order
+            "slow_link": [draw(st.integers(0, na - 1)), draw(st.sampled_from([300, 900]))]
+            if draw(st.integers(0, 3)) == 0 else None,
             "rng_seed": draw(st.integers(0, 10 ** 6))}
 
 
@@ -271,6 +275,9 @@ def run_case(case):
             out_buf = io.StringIO()
             sys.setswitchinterval(case["switch_us"] / 1e6)
             c22._patch_state["naps"] = list(case["naps"])
+            if case.get("slow_link"):
+                c22._patch_state["slow"] = c22._SlowLink(anames[case["slow_link"][0] % na], case["slow_link"][1])
+                labels.append("slow-link")
             evts = [DcopEvent("d_init", delay=1.0)]
             for i, gone in enumerate(case["events"]):
                 evts.append(DcopEvent("e%d" % i, actions=[EventAction("remove_agent", agent=anames[g]) for g in gone]))
@@ -320,6 +327,9 @@ def run_case(case):
                                info={"inconclusive": True})
         finally:
             c22._patch_state["naps"] = None
+            if c22._patch_state.get("slow") is not None:
+                c22._patch_state["slow"].close()
+                c22._patch_state["slow"] = None
             sys.setswitchinterval(old_switch)
             disc_mod.Discovery.register_computation = orig_dreg
             disc_mod.Discovery.unregister_computation = orig_dunreg
